@@ -328,6 +328,28 @@ def execute(prop, scen):
             updated += 1
             res.ops += 1
             res.states.add(short_hash([kind, updated, h["up"]]))
+        # ---- the weighted online ensemble fitted again: it starts from uniform weights, like a
+        # new one (what earlier updates taught the weighting algorithm must not survive a fit)
+        if kind == "online" and spec.get("algo") and updated and not res.violations:
+            y1 = y.iloc[:pos]
+            ok, _ = run("fit", lambda: comp.fit(y1, fh=fh_fit))
+            if ok:
+                ref2 = Reference(spec, steps)
+                with peers.paused(), sched.scenario_schedule(sched.Scheduler("fifo", 0)):
+                    try:
+                        ref2.fit(y1, fh_fit)
+                        q = ref2.predict()
+                    except Exception:
+                        q = None
+                if q is not None:
+                    ok, p = run("predict", lambda: comp.predict(None if fh_fit else steps))
+                    if ok:
+                        res.probe("reconfigured_and_refitted")
+                        if not C.same_series(p, q):
+                            v("stale_state_after_refit", "online ensemble fitted again after %d updates "
+                              "forecasts %s, a new one fitted on the same data forecasts %s (weights "
+                              "learnt before the second fit are still in use)" % (
+                                  updated, C.fmt(p), C.fmt(q)), composite="online")
         # ---- a multiplexer hands every argument of predict on to its selected member
         if kind == "mux" and not res.violations and not scen["fh_at_fit"]:
             a_ = spec.get("alpha", 0.05)
